@@ -20,6 +20,9 @@ def bind(ck, tag='c12'):
     exe = vlib.build_harness('rx_aes')
     tr = os.path.join(vlib.WORK, tag + '.ndjson')
     lines = vlib.run_harness([exe, '--seed', str(ck.seed), '--tier', ck.tier, '--out', tr], tr, timeout=600)
+    # fresh processes in which a different routine is the first AES call (no routine may depend on another one having run before)
+    for first in ('combined', 'fill4'):
+        lines += vlib.run_harness([exe, '--seed', str(ck.seed + 7), '--tier', ck.tier, '--first', first, '--out', tr], tr, timeout=600)
     res = vlib.validate_sharded('TraceAes', 'TraceAes.cfg', lines, tag, shards=16, timeout=3000, xmx='6g')
     ck.add_traces('TraceAes', res, 'soft/hard rounds, AesGenerator1R/4R, AesHash1R, combined step, T-tables, full-size chain links and soft/hard difference counts')
     ck.reject('TraceAes', res, key_of)
